@@ -16,3 +16,13 @@ Definition dense_adj (A : linop GRing) : list (list G) :=
 Definition dense (A : linop GRing) := (dense_fwd A, dense_adj A).
 Definition apply_fwd (A : linop GRing) (x : list G) : list G := map (fwd A (gvec x)) (seq 0 (ran A)).
 Definition apply_adj (A : linop GRing) (y : list G) : list G := map (adj A (gvec y)) (seq 0 (dom A)).
+
+(* CartesianSamplingOp index buffer from integer k-space coordinates (rounded trajectory) and the grid (nz, ny, nx):
+   kidx = (kz + nz//2) * ny * nx + (ky + ny//2) * nx + (kx + nx//2); points outside the encoding matrix are dropped *)
+Definition cart_index (nz ny nx : Z) (k : Z * Z * Z) : option nat :=
+  let '(kz, ky, kx) := k in
+  let iz := (kz + nz / 2)%Z in let iy := (ky + ny / 2)%Z in let ix := (kx + nx / 2)%Z in
+  if ((0 <=? ix) && (ix <? nx) && (0 <=? iy) && (iy <? ny) && (0 <=? iz) && (iz <? nz))%Z
+  then Some (Z.to_nat (iz * ny * nx + iy * nx + ix)) else None.
+Definition cart_op (nz ny nx : Z) (ks : list (Z * Z * Z)) : linop GRing :=
+  cart_sampling (R:=GRing) (Z.to_nat (nz * ny * nx)) (length ks) (fun s => match nth_error ks s with Some k => cart_index nz ny nx k | None => None end).
